@@ -30,6 +30,35 @@ func errorCodeBytes(e *errT) (out []byte, panicked bool) {
 	return sink.Bytes(), false
 }
 
+// emitC17Paths reports error [e] through the four paths of a real connection and writes one line per path.
+func emitC17Paths(c *runCfg, idp *int, e *errT) {
+	st := stmtT{id: 1, ret: "err", rerr: e}
+	cfg := cfgT{limit: 4096, auth: "none", term: "none", parse: []parseEntry{{query: []byte("perr"), err: e}, {query: []byte("herr"), stmts: []stmtT{st}}}}
+	raw := cat(stdStartup, mQuery([]byte("perr")), mParse(nil, []byte("perr"), 0), mSync(),
+		mParse(nil, []byte("herr"), 0), mBind(nil, nil, nil, nil, nil), mExecute(nil, 0), mSync(), mQuery([]byte("herr")), mTerminate())
+	o := runSession(flatCase(0, "path", cfg, raw, nil))
+	var found [][]byte
+	for b := o.out; len(b) >= 5; {
+		l := int(uint32(b[1])<<24 | uint32(b[2])<<16 | uint32(b[3])<<8 | uint32(b[4]))
+		if l < 4 || len(b) < 1+l {
+			break
+		}
+		if b[0] == 'E' {
+			found = append(found, b[:1+l])
+		}
+		b = b[1+l:]
+	}
+	for k, path := range []string{"path_simple_parse", "path_extended_parse", "path_execute", "path_simple_statement"} {
+		var out []byte
+		if k < len(found) && len(found) == 4 {
+			out = cat(found[k], []byte{'Z', 0, 0, 0, 5, 'I'})
+		}
+		c.out.line(sx("c17", *idp, path, sx("err", e.sx()), sx("out", out), sx("panic", o.panicv != "")))
+		c.stat("class_" + path)
+		*idp++
+	}
+}
+
 func runC17(c *runCfg) error {
 	id := 0
 	emit := func(class string, e *errT) {
@@ -62,6 +91,8 @@ func runC17(c *runCfg) error {
 			en := n.field("err").list[1]
 			if en.leaf {
 				emit("replay", nil)
+			} else if strings.HasPrefix(n.list[2].atom, "path_") {
+				emitC17Paths(c, &id, errFrom(en))
 			} else {
 				emit("replay", errFrom(en))
 			}
@@ -110,6 +141,40 @@ func runC17(c *runCfg) error {
 	}
 	for i := 0; i < n; i++ {
 		emit("random", g.errTree(g.rng.Intn(9)))
+	}
+	// every exported severity level and unusual severity texts, outermost and shadowed; codes likewise
+	for _, sv := range []string{"ERROR", "FATAL", "PANIC", "WARNING", "NOTICE", "DEBUG", "INFO", "LOG", "error", "Log", "X", "LOGGING", "Nötice", " ", "ERROR "} {
+		emit("severities", &errT{kind: "sev", a: []byte(sv), inner: base("s")})
+		emit("severities", &errT{kind: "sev", a: []byte(sv), inner: &errT{kind: "sev", a: []byte("FATAL"), inner: base("s")}})
+		emit("severities", &errT{kind: "sev", a: []byte("WARNING"), inner: &errT{kind: "sev", a: []byte(sv), inner: base("s")}})
+		emit("severities", &errT{kind: "wrap", a: []byte("w: "), inner: &errT{kind: "code", a: []byte("22012"), inner: &errT{kind: "sev", a: []byte(sv), inner: base("s")}}})
+		emit("severities", &errT{kind: "sev", a: []byte(""), inner: &errT{kind: "sev", a: []byte(sv), inner: base("s")}})
+	}
+	for _, cd := range []string{"XXUUU", "42601", "00000", "XX000", "P0001", "abcde", "4260", "426011", " "} {
+		emit("codes", &errT{kind: "code", a: []byte(cd), inner: base("c")})
+		emit("codes", &errT{kind: "code", a: []byte(cd), inner: &errT{kind: "code", a: []byte("23505"), inner: base("c")}})
+		emit("codes", &errT{kind: "code", a: []byte("XXUUU"), inner: &errT{kind: "code", a: []byte(cd), inner: base("c")}})
+		emit("codes", &errT{kind: "code", a: []byte(""), inner: &errT{kind: "code", a: []byte(cd), inner: base("c")}})
+	}
+	// the same error through every path of a real connection: returned by the parse function for a simple query
+	// and for an extended Parse, returned by the statement function under Execute and under a simple query.
+	// Each ErrorResponse on the wire is judged like the direct call (the path adds and changes nothing).
+	if c.replay == "" {
+		var errs []*errT
+		errs = append(errs, base("plain"), &errT{kind: "code", a: []byte("XXUUU"), inner: &errT{kind: "code", a: []byte("23505"), inner: base("shadowed")}},
+			&errT{kind: "sev", a: []byte("LOG"), inner: base("log")}, &errT{kind: "hint", a: []byte("h"), inner: &errT{kind: "detail", a: []byte("d"), inner: base("hd")}},
+			&errT{kind: "source", a: []byte("f.go"), line: 7, b: []byte("fn"), inner: &errT{kind: "constraint", a: []byte("pk"), inner: base("sc")}},
+			&errT{kind: "wrap", a: []byte("outer: "), inner: &errT{kind: "code", a: []byte("42P01"), inner: base("wrapped")}})
+		np := 24
+		if c.tier == "thorough" {
+			np = 400
+		}
+		for i := 0; i < np; i++ {
+			errs = append(errs, g.errTree(1+g.rng.Intn(6)))
+		}
+		for _, e := range errs {
+			emitC17Paths(c, &id, e)
+		}
 	}
 	// the library's own constructors
 	for _, t := range []byte{0, 'p', 'z', 255} {
